@@ -140,6 +140,15 @@ func extractSinglePart(re *syntax.Regexp) *charClassPart {
 		return nil
 	}
 
+	// The searcher is greedy: lazy quantifiers need a general engine.
+	if re.Op != syntax.OpCharClass && re.Flags&syntax.NonGreedy != 0 {
+		return nil
+	}
+	// maxMatch == 0 means "unlimited" below, so x{0} / x{0,0} cannot be represented.
+	if re.Op == syntax.OpRepeat && re.Max == 0 {
+		return nil
+	}
+
 	// Validate that the inner is a char class
 	if charClass.Op != syntax.OpCharClass {
 		return nil
@@ -150,8 +159,8 @@ func extractSinglePart(re *syntax.Regexp) *charClassPart {
 	runes := charClass.Rune
 	for i := 0; i < len(runes); i += 2 {
 		lo, hi := runes[i], runes[i+1]
-		// Only support ASCII for now
-		if lo > 255 || hi > 255 {
+		// Only ASCII: runes 128..255 are two UTF-8 bytes, not the byte of the same value
+		if lo > 127 || hi > 127 {
 			return nil
 		}
 		for r := lo; r <= hi; r++ {
@@ -276,6 +285,11 @@ func isValidCompositePart(re *syntax.Regexp) bool {
 	if re == nil {
 		return false
 	}
+	// Same restrictions as extractSinglePart, so that strategy selection and construction agree.
+	return extractSinglePart(re) != nil && isValidCompositePartShape(re)
+}
+
+func isValidCompositePartShape(re *syntax.Regexp) bool {
 
 	switch re.Op {
 	case syntax.OpPlus, syntax.OpStar, syntax.OpQuest:
